@@ -16,6 +16,18 @@ def _snapshot(v):
         return repr(v)
 
 
+def fingerprint(v):
+    """structure of a value; non-JSON leaves by identity (an opaque object is
+    unchanged iff it is still the same object)"""
+    if isinstance(v, dict):
+        return ('d', tuple((k, fingerprint(x)) for k, x in v.items()))
+    if isinstance(v, (list, tuple)):
+        return ('l', tuple(fingerprint(x) for x in v))
+    if isinstance(v, (str, int, float, bool, type(None))):
+        return ('s', type(v).__name__, v)
+    return ('o', id(v))
+
+
 def dflt_spec(dflt):
     if dflt is None:
         return {'t': 'name', 'v': 'default'}
@@ -35,7 +47,7 @@ def enforce_case(rules, call, target, creds, dflt=None, registered=(), enforce_s
     reg = [(n, list(sc), ev.rule_text(dict(rules)[n]) if n in dict(rules) else '!') for n, sc in registered]
     e = enforcer or ev.make_enforcer(texts, dflt, reg, enforce_scope, via)
     tgt = _snapshot(target)
-    before = repr(target)
+    before = fingerprint(tgt)
     crd = creds_obj if creds_obj is not None else _snapshot(creds)
     xargs = call.get('xargs', [])
     xkw = call.get('xkw', {})
@@ -60,7 +72,7 @@ def enforce_case(rules, call, target, creds, dflt=None, registered=(), enforce_s
                          obs['msg'] == '%s is disallowed by policy' % call['name']) or \
         (obs['cls'] == 'PolicyNotAuthorized' and call['by'] == 'check') else 0
     obs['argsok'] = 1 if obs['cls'] == 'Custom' and obs.get('xargs') == list(xargs) and obs.get('xkw') == sorted(xkw.items()) else 0
-    obs['target_unchanged'] = 1 if repr(tgt) == before else 0
+    obs['target_unchanged'] = 1 if fingerprint(tgt) == before else 0
     obs.pop('xargs', None)
     obs.pop('xkw', None)
     strs = []
